@@ -361,7 +361,17 @@ type Peer struct {
 	Protos       []string
 	Chain        [][]byte
 	HoldsLeafKey bool
+	NotTLS       bool  // writes bytes that are not TLS, then closes
+	Abort        bool  // aborts with a fatal alert after the server's flight
+	AbortErr     error // what the server's handshake returns then (engine side; natively it is crypto/tls's *net.OpError)
 }
+
+// RemoteAbort mimics the *net.OpError crypto/tls returns for a fatal alert from the peer: not temporary, not a timeout.
+type RemoteAbort struct{}
+
+func (RemoteAbort) Error() string   { return "remote error: tls: bad certificate" }
+func (RemoteAbort) Temporary() bool { return false }
+func (RemoteAbort) Timeout() bool   { return false }
 
 // Script is a base listener that hands out the scripted connections / errors in order, then net.ErrClosed.
 type Script struct {
